@@ -1297,6 +1297,20 @@ def directed_scenarios(rng: Rng) -> List[dict]:
     return out
 
 
+def wireless_scenarios(rng: Rng) -> List[dict]:
+    """ENUMERATED every run: each way the wireless path can be blocked x the wireless router it is done on"""
+    tail = ["ping", "data_manip", "db_query_new", "port_scan_tcp", "port_scan_udp", "c_ping", "ping_gw", "dos", "port_scan_none"]
+    out = []
+    for block in ("router_deny_anyany", "router_deny_dst_exact", "router_deny_src_range", "router_off", "wap_disabled", "wap_other_frequency"):
+        for at in ("R1", "R2"):
+            sc = {"family": "wireless", "block": block, "routers": 2, "at": at, "rule_pos": rng.choice([0, 1, 3]),
+                  "pre_ops": [rng.choice(["ping", "db_connect", "tick"])], "post_ops": [rng.choice(tail) for _ in range(4)]}
+            if block == "router_off":
+                sc["shut"] = rng.choice([0, 2])
+            out.append(sc)
+    return out
+
+
 def sig_of(sc: dict, v: dict) -> dict:
     s = {"kind": v["kind"], "family": sc["family"], "block": sc["block"]}
     if sc.get("phase"):
@@ -1317,9 +1331,11 @@ def run(ctx: Ctx):
     rng = ctx.rng.fork("net")
     for k, sc in enumerate(directed_scenarios(ctx.rng.fork("net-directed"))):
         scenarios.append((f"directed:{k}", sc))
+    for k, sc in enumerate(wireless_scenarios(ctx.rng.fork("net-wireless"))):
+        scenarios.append((f"wireless:{k}", sc))
     for k, sc in enumerate(transitional_scenarios(ctx.rng.fork("net-transitional"), every_duration=ctx.thorough)):
         scenarios.append((f"transitional:{k}", sc))
-    for k in range(ctx.scale(45, 900)):
+    for k in range(ctx.scale(40, 900)):
         scenarios.append((f"gen:{k}", gen_scenario(rng, max_ops=ctx.scale(6, 10))))
     clean = 0
     results = [(name, sc, run_scenario(sc, control=True)) for name, sc in scenarios]
